@@ -83,7 +83,7 @@ _install_budget()
 _install_resets()
 
 WRITE_KINDS = ("page", "pages", "links", "batch", "create", "delete", "addprefix", "rmprefix", "move",
-               "rule", "unrule", "reopen", "clear")
+               "rule", "unrule", "reopen", "clear", "recreate")
 
 
 def scratch_root():
@@ -188,8 +188,9 @@ class Index(object):
     def flush(self):
         t = self.traph
         if t is not None and not t.in_memory:
-            t.lru_trie_file.flush()
-            t.link_store_file.flush()
+            # the handles the storages actually write through
+            t.lru_trie_storage.file.flush()
+            t.links_store_storage.file.flush()
 
     def raw(self):
         """(trie bytes, link store bytes) as they are in the store right now"""
@@ -243,6 +244,12 @@ class Index(object):
                 return Outcome("ok", ret=ret)
             if kind == "reopen":
                 self.reopen()
+                return Outcome("ok")
+            if kind == "recreate":
+                # close, then construct again on the SAME (populated) folder with overwrite=True and the current rules
+                self.traph.close()
+                self.traph = None
+                self.open(True, dict(self.rules))
                 return Outcome("ok")
             if kind == "clear":
                 rules = {a: n for a, n in op[2]}
